@@ -57,6 +57,10 @@ type Explorer struct {
 	St    Stats
 	child uint64
 	Whole bool // this worker explores the whole tree of the scenario (scenario-level sharding)
+	// DevBounded: every non-default choice (also a forced switch to a thread other than the lowest
+	// enabled one) counts against the bound, not only preemptions. Used for whole-interpreter drivers
+	// whose polling loops offer a free alternative at almost every point.
+	DevBounded bool
 }
 
 func schedString(devs []dev) string {
@@ -188,6 +192,12 @@ func (x *Explorer) explore(devs []dev, cost, bound, depth int) bool {
 	if x.C.Expired() {
 		return false
 	}
+	if x.C.P.NViolations >= 40 {
+		// plenty of counterexamples already: stop this worker's search (the run fails anyway)
+		x.C.P.Exhaustive = false
+		x.C.Note("search stopped after 40 violations in this worker")
+		return false
+	}
 	e, o, herr := RunOnce(x.Sc, devs)
 	if herr != "" {
 		x.C.HarnessError("%s schedule %s: %s", x.Sc.Name, schedString(devs), herr)
@@ -212,6 +222,11 @@ func (x *Explorer) explore(devs []dev, cost, bound, depth int) bool {
 				continue
 			}
 			if x.Sc.PreemptAt != nil && !x.Sc.PreemptAt(p) {
+				continue
+			}
+		} else if x.DevBounded {
+			c++
+			if c > bound {
 				continue
 			}
 		}
@@ -283,19 +298,43 @@ func Replay(c *vlib.Ctx, scs []*Scenario, w string) {
 }
 
 // RunAll explores every scenario with the given bound and fills the context counters.
-func RunAll(c *vlib.Ctx, scs []*Scenario, bound int) { runAll(c, scs, bound, false) }
+func RunAll(c *vlib.Ctx, scs []*Scenario, bound int) { runAll(c, scs, bound, false, false) }
 
 // RunAllByScenario shards by scenario instead of by subtree (many small scenarios).
-func RunAllByScenario(c *vlib.Ctx, scs []*Scenario, bound int) { runAll(c, scs, bound, true) }
+func RunAllByScenario(c *vlib.Ctx, scs []*Scenario, bound int) { runAll(c, scs, bound, true, false) }
 
-func runAll(c *vlib.Ctx, scs []*Scenario, bound int, byScenario bool) {
+// RunAllDev: deviation-bounded (see Explorer.DevBounded), sharded by subtree.
+func RunAllDev(c *vlib.Ctx, scs []*Scenario, bound int) { runAll(c, scs, bound, false, true) }
+
+// RunAllDevWhole: deviation-bounded, the caller has already selected this worker's scenarios.
+func RunAllDevWhole(c *vlib.Ctx, scs []*Scenario, bound int) {
+	minBound := bound
+	var execs int64
+	for _, sc := range scs {
+		x := &Explorer{C: c, Sc: sc, Bound: bound, Whole: true, DevBounded: true}
+		ok := x.Explore()
+		execs += x.St.Execs
+		if x.St.BoundCompleted < minBound {
+			minBound = x.St.BoundCompleted
+		}
+		if !ok {
+			c.Note("scenario %s: deadline reached at bound %d (completed bound %d)", sc.Name, bound, x.St.BoundCompleted)
+			break
+		}
+	}
+	c.P.States += execs
+	c.Extra("executions", execs)
+	c.Note("deviation bound completed for every scenario of this worker: %d (requested %d)", minBound, bound)
+}
+
+func runAll(c *vlib.Ctx, scs []*Scenario, bound int, byScenario, devBounded bool) {
 	minBound := bound
 	var execs int64
 	for i, sc := range scs {
 		if byScenario && !c.Mine(uint64(i)) {
 			continue
 		}
-		x := &Explorer{C: c, Sc: sc, Bound: bound, Whole: byScenario}
+		x := &Explorer{C: c, Sc: sc, Bound: bound, Whole: byScenario, DevBounded: devBounded}
 		ok := x.Explore()
 		execs += x.St.Execs
 		if x.St.BoundCompleted < minBound {
